@@ -113,7 +113,7 @@ fn c12_vcf_read_field_utf8_character_split() {
     std::mem::forget(dst);
 }
 
-// @verif prop=C15 id=O15.vcf.field-step/1 tier=quick unwind=5 stubs="memchr::memchr2->first-occurrence loop (cfg(kani) source shim, documented contract); std::str::from_utf8->validator model exact on ASCII + 2-byte sequences (precondition asserted)" bound="as O15.vcf.field-step/2 with an ARBITRARY 1-byte input (enough for the empty-last-field case: a lone LF after a field that ends in CR)" fns="vcf::io::reader::record::read_field"
+// @verif prop=C15 id=O15.vcf.field-step/1 tier=quick unwind=5 timeout=900 stubs="memchr::memchr2->first-occurrence loop (cfg(kani) source shim, documented contract); std::str::from_utf8->validator model exact on ASCII + 2-byte sequences (precondition asserted)" bound="as O15.vcf.field-step/2 with an ARBITRARY 1-byte input (enough for the empty-last-field case: a lone LF after a field that ends in CR)" fns="vcf::io::reader::record::read_field"
 #[kani::proof]
 #[kani::unwind(5)]
 #[kani::stub(std::str::from_utf8, from_utf8_model)]
